@@ -243,7 +243,9 @@ def check_shortest(ctx, g, ref, pairs, unweighted=False):
             ctx.event("shortest cost right (%d hops)" % min(len(path) - 1, 4))
         else:
             ctx.event("shortest cost wrong (%d hops)" % min(len(path) - 1, 4))
-            ctx.fail("shortest_path.cost_wrong", info)
+            # the known pinned defect fires on most pairs: one report per case is enough
+            if not any(sg == "shortest_path.cost_wrong" for sg, _ in ctx.fails):
+                ctx.fail("shortest_path.cost_wrong", info)
 
 
 def check_all_shortest(ctx, g, ref, unweighted=False):
